@@ -3,6 +3,7 @@ package c11
 import (
 	"fmt"
 	"math/rand"
+	"path/filepath"
 	"strings"
 
 	"github.com/emersion/go-webdav/verifharness/davx"
@@ -148,7 +149,133 @@ func genFileWorld(r *rand.Rand, server string) world {
 		}
 	}
 	fill("/", 0)
+	if local && r.Intn(10) < 7 {
+		addLinks(r, &w)
+	}
 	return w
+}
+
+func under(p, dir string) bool {
+	if dir == "/" {
+		return true
+	}
+	return p == dir || strings.HasPrefix(p, dir+"/")
+}
+
+func relTarget(fromDir, to string) string {
+	rel, err := filepath.Rel(filepath.FromSlash(fromDir), filepath.FromSlash(to))
+	if err != nil {
+		return "."
+	}
+	return filepath.ToSlash(rel)
+}
+
+// addLinks puts 1-4 symbolic links with relative targets inside the tree into
+// an fs-local world: links to directories, to files and dangling ones, at the
+// top level and in sub-collections, named so that siblings sort on both sides.
+// Links to directories never form a cycle: no link lives inside the subtree of
+// a link target.
+func addLinks(r *rand.Rand, w *world) {
+	var dirs, files []string
+	kids := map[string][]string{}
+	for _, f := range w.Files {
+		if f.Dir {
+			dirs = append(dirs, f.Path)
+		} else {
+			files = append(files, f.Path)
+		}
+		if f.Path != "/" {
+			kids[parentPath(f.Path)] = append(kids[parentPath(f.Path)], f.Path[strings.LastIndexByte(f.Path, '/')+1:])
+		}
+	}
+	var targets, links []string
+	n := 1 + r.Intn(4)
+	for k := 0; k < n; k++ {
+		kind := []string{"dir", "dir", "file", "dangling"}[r.Intn(4)]
+		// where the link lives: outside every link target's subtree
+		var homes []string
+		for _, d := range dirs {
+			ok := true
+			for _, t := range targets {
+				if under(d, t) {
+					ok = false
+				}
+			}
+			if ok {
+				homes = append(homes, d)
+			}
+		}
+		if len(homes) == 0 {
+			return
+		}
+		home := homes[r.Intn(len(homes))]
+		if r.Intn(3) == 0 {
+			home = "/"
+			for _, t := range targets {
+				if under(home, t) {
+					home = homes[0]
+				}
+			}
+		}
+		var target string
+		switch kind {
+		case "dir":
+			var cands []string
+			for _, d := range dirs {
+				if d == "/" || under(home, d) {
+					continue
+				}
+				ok := true
+				for _, l := range links {
+					if under(l, d) {
+						ok = false
+					}
+				}
+				if ok {
+					cands = append(cands, d)
+				}
+			}
+			if len(cands) == 0 {
+				kind = "dangling"
+			} else {
+				target = cands[r.Intn(len(cands))]
+				targets = append(targets, target)
+			}
+		case "file":
+			if len(files) == 0 {
+				kind = "dangling"
+			} else {
+				target = files[r.Intn(len(files))]
+			}
+		}
+		rel := ""
+		if kind == "dangling" {
+			rel = []string{"gone", "../gone", "missing/target", "no such"}[r.Intn(4)]
+		} else {
+			rel = relTarget(home, target)
+		}
+		// a name that sorts among the siblings
+		used := map[string]bool{}
+		for _, s := range kids[home] {
+			used[s] = true
+		}
+		var seg string
+		if sib := kids[home]; len(sib) > 0 && r.Intn(4) != 0 {
+			seg = sib[r.Intn(len(sib))] + "!l"
+		} else {
+			seg = []string{"0-lnk", "M-lnk", "mid-lnk", "zz-lnk", "~lnk"}[r.Intn(5)]
+		}
+		for used[seg] {
+			seg += "_"
+		}
+		kids[home] = append(kids[home], seg)
+		p := home + "/" + seg
+		if home == "/" {
+			p = "/" + seg
+		}
+		links = append(links, p)
+		w.Files = append(w.Files, fileSpec{Path: p, Link: rel, LinkKind: kind})
+	}
 }
 
 func maybeSlash(r *rand.Rand, p string) string {
